@@ -132,12 +132,7 @@ func C05(ctx *core.Ctx) {
 		"every index, slice, make-length and encoding/binary access in the cone of the receiving entry points (found by type: NATS message handlers, the HTTP handler, goroutine receive loops, the read loop, accept, and the decoding halves of client and server) is proved in range by a linear-inequality prover from the dominating branch conditions (machine arithmetic respected: an addition counts only if its no-overflow is itself proved); " +
 		"no source-level panic/Fatal/Exit and no unchecked type assertion in the cone; every exit of a message loop is dominated by a lifecycle signal; connection-oriented readers exit through close(cause). " +
 		"Not decided: panics inside thrift/nats/stomp/generated code and user handlers, nil dereferences, memory exhaustion by huge-but-legal sizes."
-	for _, cfgs := range [][2]string{{"", ""}} {
-		c05Config(ctx, cfgs[0], cfgs[1])
-	}
-	if ctx.Tier == "thorough" {
-		c05Config(ctx, "", "386")
-	}
+	c05Config(ctx, "", "")
 }
 
 func c05Config(ctx *core.Ctx, goos, goarch string) {
@@ -248,11 +243,7 @@ func c05Config(ctx *core.Ctx, goos, goarch string) {
 	}
 
 	// ---- R2/R3 ------------------------------------------------------------------------
-	intBits := 64
-	if goarch == "386" {
-		intBits = 32
-	}
-	cfg := &bounds.Config{IntBits: intBits, AssumeLenI32: true}
+	cfg := &bounds.Config{IntBits: IntBits(), AssumeLenI32: true}
 	pr := bounds.New(cfg)
 	// call sites of unexported functions across the whole package
 	sites := map[*ssa.Function][]bounds.CallSite{}
